@@ -98,6 +98,12 @@ pub fn fused_addassign_mul_scalar_binary(
     if octets.is_empty() {
         return;
     }
+    #[cfg(feature = "verif")]
+    if let Some(kernel) = verif_kernels::forced_kernel() {
+        if verif_kernels::fused_addassign_mul_scalar_binary(kernel, octets, other, scalar) {
+            return;
+        }
+    }
     #[cfg(all(any(target_arch = "x86", target_arch = "x86_64"), feature = "std"))]
     {
         if is_x86_feature_detected!("avx512f") && is_x86_feature_detected!("avx512bw") {
@@ -614,6 +620,12 @@ unsafe fn mulassign_scalar_ssse3(octets: &mut [u8], scalar: &Octet) {
 
 #[inline]
 pub fn mulassign_scalar(octets: &mut [u8], scalar: &Octet) {
+    #[cfg(feature = "verif")]
+    if let Some(kernel) = verif_kernels::forced_kernel() {
+        if verif_kernels::mulassign_scalar(kernel, octets, scalar) {
+            return;
+        }
+    }
     #[cfg(all(any(target_arch = "x86", target_arch = "x86_64"), feature = "std"))]
     {
         if is_x86_feature_detected!("avx512f") && is_x86_feature_detected!("avx512bw") {
@@ -828,6 +840,12 @@ pub fn fused_addassign_mul_scalar(octets: &mut [u8], other: &[u8], scalar: &Octe
     );
 
     assert_eq!(octets.len(), other.len());
+    #[cfg(feature = "verif")]
+    if let Some(kernel) = verif_kernels::forced_kernel() {
+        if verif_kernels::fused_addassign_mul_scalar(kernel, octets, other, scalar) {
+            return;
+        }
+    }
     #[cfg(all(any(target_arch = "x86", target_arch = "x86_64"), feature = "std"))]
     {
         if is_x86_feature_detected!("avx512f") && is_x86_feature_detected!("avx512bw") {
@@ -1045,6 +1063,12 @@ unsafe fn add_assign_ssse3(octets: &mut [u8], other: &[u8]) {
 
 #[inline]
 pub fn add_assign(octets: &mut [u8], other: &[u8]) {
+    #[cfg(feature = "verif")]
+    if let Some(kernel) = verif_kernels::forced_kernel() {
+        if verif_kernels::add_assign(kernel, octets, other) {
+            return;
+        }
+    }
     #[cfg(all(any(target_arch = "x86", target_arch = "x86_64"), feature = "std"))]
     {
         if is_x86_feature_detected!("avx512f") {
@@ -1081,6 +1105,298 @@ pub fn add_assign(octets: &mut [u8], other: &[u8]) {
         // }
     }
     return add_assign_fallback(octets, other);
+}
+
+// Verification hooks: expose each private kernel individually, a "supported on this CPU"
+// predicate, and a process-wide override of the dispatchers' kernel choice.
+#[cfg(feature = "verif")]
+pub mod verif_kernels {
+    use super::*;
+    use core::sync::atomic::{AtomicU8, Ordering};
+
+    #[derive(Copy, Clone, Debug, PartialEq, Eq, PartialOrd, Ord, Hash)]
+    #[repr(u8)]
+    pub enum Kernel {
+        Avx512 = 1,
+        Avx2 = 2,
+        Ssse3 = 3,
+        Neon = 4,
+        Portable = 5,
+    }
+
+    pub const ALL_KERNELS: [Kernel; 5] = [
+        Kernel::Avx512,
+        Kernel::Avx2,
+        Kernel::Ssse3,
+        Kernel::Neon,
+        Kernel::Portable,
+    ];
+
+    static FORCED: AtomicU8 = AtomicU8::new(0);
+
+    /// Force every dispatcher onto one kernel (None restores CPU detection).
+    pub fn force_kernel(kernel: Option<Kernel>) {
+        FORCED.store(kernel.map_or(0, |k| k as u8), Ordering::SeqCst);
+    }
+
+    pub fn forced_kernel() -> Option<Kernel> {
+        match FORCED.load(Ordering::Relaxed) {
+            1 => Some(Kernel::Avx512),
+            2 => Some(Kernel::Avx2),
+            3 => Some(Kernel::Ssse3),
+            4 => Some(Kernel::Neon),
+            5 => Some(Kernel::Portable),
+            _ => None,
+        }
+    }
+
+    /// Is this kernel compiled in and usable on the running CPU?
+    #[allow(unreachable_code)]
+    pub fn supported(kernel: Kernel) -> bool {
+        match kernel {
+            Kernel::Portable => true,
+            Kernel::Avx512 => {
+                #[cfg(all(any(target_arch = "x86", target_arch = "x86_64"), feature = "std"))]
+                {
+                    return is_x86_feature_detected!("avx512f")
+                        && is_x86_feature_detected!("avx512bw");
+                }
+                false
+            }
+            Kernel::Avx2 => {
+                #[cfg(all(any(target_arch = "x86", target_arch = "x86_64"), feature = "std"))]
+                {
+                    return is_x86_feature_detected!("avx2") && is_x86_feature_detected!("bmi1");
+                }
+                false
+            }
+            Kernel::Ssse3 => {
+                #[cfg(all(any(target_arch = "x86", target_arch = "x86_64"), feature = "std"))]
+                {
+                    return is_x86_feature_detected!("ssse3");
+                }
+                false
+            }
+            Kernel::Neon => {
+                #[cfg(all(target_arch = "aarch64", feature = "std"))]
+                {
+                    return is_aarch64_feature_detected!("neon");
+                }
+                false
+            }
+        }
+    }
+
+    /// `octets ^= other` on the given kernel. Returns false if the kernel is unavailable.
+    #[allow(unreachable_code, unused_variables)]
+    pub fn add_assign(kernel: Kernel, octets: &mut [u8], other: &[u8]) -> bool {
+        if !supported(kernel) {
+            return false;
+        }
+        match kernel {
+            Kernel::Portable => {
+                add_assign_fallback(octets, other);
+                true
+            }
+            Kernel::Avx512 => {
+                #[cfg(all(any(target_arch = "x86", target_arch = "x86_64"), feature = "std"))]
+                unsafe {
+                    add_assign_avx512(octets, other);
+                    return true;
+                }
+                false
+            }
+            Kernel::Avx2 => {
+                #[cfg(all(any(target_arch = "x86", target_arch = "x86_64"), feature = "std"))]
+                unsafe {
+                    add_assign_avx2(octets, other);
+                    return true;
+                }
+                false
+            }
+            Kernel::Ssse3 => {
+                #[cfg(all(any(target_arch = "x86", target_arch = "x86_64"), feature = "std"))]
+                unsafe {
+                    add_assign_ssse3(octets, other);
+                    return true;
+                }
+                false
+            }
+            Kernel::Neon => {
+                #[cfg(all(target_arch = "aarch64", feature = "std"))]
+                unsafe {
+                    add_assign_neon(octets, other);
+                    return true;
+                }
+                false
+            }
+        }
+    }
+
+    /// `octets *= scalar` on the given kernel. Returns false if the kernel is unavailable.
+    #[allow(unreachable_code, unused_variables)]
+    pub fn mulassign_scalar(kernel: Kernel, octets: &mut [u8], scalar: &Octet) -> bool {
+        if !supported(kernel) {
+            return false;
+        }
+        match kernel {
+            Kernel::Portable => {
+                mulassign_scalar_fallback(octets, scalar);
+                true
+            }
+            Kernel::Avx512 => {
+                #[cfg(all(any(target_arch = "x86", target_arch = "x86_64"), feature = "std"))]
+                unsafe {
+                    mulassign_scalar_avx512(octets, scalar);
+                    return true;
+                }
+                false
+            }
+            Kernel::Avx2 => {
+                #[cfg(all(any(target_arch = "x86", target_arch = "x86_64"), feature = "std"))]
+                unsafe {
+                    mulassign_scalar_avx2(octets, scalar);
+                    return true;
+                }
+                false
+            }
+            Kernel::Ssse3 => {
+                #[cfg(all(any(target_arch = "x86", target_arch = "x86_64"), feature = "std"))]
+                unsafe {
+                    mulassign_scalar_ssse3(octets, scalar);
+                    return true;
+                }
+                false
+            }
+            Kernel::Neon => {
+                #[cfg(all(target_arch = "aarch64", feature = "std"))]
+                unsafe {
+                    mulassign_scalar_neon(octets, scalar);
+                    return true;
+                }
+                false
+            }
+        }
+    }
+
+    /// `octets ^= scalar * other` on the given kernel. Returns false if the kernel is unavailable.
+    #[allow(unreachable_code, unused_variables)]
+    pub fn fused_addassign_mul_scalar(
+        kernel: Kernel,
+        octets: &mut [u8],
+        other: &[u8],
+        scalar: &Octet,
+    ) -> bool {
+        if !supported(kernel) {
+            return false;
+        }
+        assert_eq!(octets.len(), other.len());
+        match kernel {
+            Kernel::Portable => {
+                fused_addassign_mul_scalar_fallback(octets, other, scalar);
+                true
+            }
+            Kernel::Avx512 => {
+                #[cfg(all(any(target_arch = "x86", target_arch = "x86_64"), feature = "std"))]
+                unsafe {
+                    fused_addassign_mul_scalar_avx512(octets, other, scalar);
+                    return true;
+                }
+                false
+            }
+            Kernel::Avx2 => {
+                #[cfg(all(any(target_arch = "x86", target_arch = "x86_64"), feature = "std"))]
+                unsafe {
+                    fused_addassign_mul_scalar_avx2(octets, other, scalar);
+                    return true;
+                }
+                false
+            }
+            Kernel::Ssse3 => {
+                #[cfg(all(any(target_arch = "x86", target_arch = "x86_64"), feature = "std"))]
+                unsafe {
+                    fused_addassign_mul_scalar_ssse3(octets, other, scalar);
+                    return true;
+                }
+                false
+            }
+            Kernel::Neon => {
+                #[cfg(all(target_arch = "aarch64", feature = "std"))]
+                unsafe {
+                    fused_addassign_mul_scalar_neon(octets, other, scalar);
+                    return true;
+                }
+                false
+            }
+        }
+    }
+
+    /// Does a dedicated packed-binary FMA kernel exist for this instruction set?
+    pub fn has_binary_kernel(kernel: Kernel) -> bool {
+        matches!(kernel, Kernel::Avx512 | Kernel::Avx2 | Kernel::Neon) && supported(kernel)
+    }
+
+    /// `octets ^= scalar * bits` on the given kernel. Instruction sets without a dedicated
+    /// packed-binary kernel (SSSE3, portable) take the dispatcher's generic route: unpack, then
+    /// add / fused-multiply-add on that kernel. Returns false if the kernel is unavailable.
+    #[allow(unreachable_code, unused_variables)]
+    pub fn fused_addassign_mul_scalar_binary(
+        kernel: Kernel,
+        octets: &mut [u8],
+        other: &BinaryOctetVec,
+        scalar: &Octet,
+    ) -> bool {
+        if !supported(kernel) {
+            return false;
+        }
+        assert_eq!(octets.len(), other.len());
+        if octets.is_empty() {
+            return true;
+        }
+        match kernel {
+            Kernel::Avx512 => {
+                #[cfg(all(any(target_arch = "x86", target_arch = "x86_64"), feature = "std"))]
+                unsafe {
+                    fused_addassign_mul_scalar_binary_avx512(octets, other, scalar);
+                    return true;
+                }
+                false
+            }
+            Kernel::Avx2 => {
+                #[cfg(all(any(target_arch = "x86", target_arch = "x86_64"), feature = "std"))]
+                unsafe {
+                    fused_addassign_mul_scalar_binary_avx2(octets, other, scalar);
+                    return true;
+                }
+                false
+            }
+            Kernel::Neon => {
+                #[cfg(all(target_arch = "aarch64", feature = "std"))]
+                unsafe {
+                    fused_addassign_mul_scalar_binary_neon(octets, other, scalar);
+                    return true;
+                }
+                false
+            }
+            Kernel::Ssse3 | Kernel::Portable => {
+                if *scalar == Octet::one() {
+                    add_assign(kernel, octets, &other.to_octet_vec())
+                } else {
+                    fused_addassign_mul_scalar(kernel, octets, &other.to_octet_vec(), scalar)
+                }
+            }
+        }
+    }
+
+    /// The crate's own unpacking of a packed binary vector (one byte per element).
+    pub fn unpack(other: &BinaryOctetVec) -> Vec<u8> {
+        other.to_octet_vec()
+    }
+
+    /// Raw packed words and logical length of a packed binary vector.
+    pub fn raw(other: &BinaryOctetVec) -> (&[u64], usize) {
+        (&other.elements, other.length)
+    }
 }
 
 #[cfg(feature = "std")]
